@@ -178,15 +178,17 @@ def ob_b(ob):
     known = ob.is_known(FINDING)
     ignore = ("xyz-dup",) if known else ()
     slices = []
-    for cfg in (0, 2, 3):
+    # (first version: 3 configurations, second crash within 40 operations, 8 chunks: 11 of 24 slices ran into the
+    # 1500 s per-condition limit and were reported inconclusive; the space per slice is now ~4x smaller)
+    for cfg in (0, 3):
         nev = P.crash_reference(cfg)[2]
-        ob.bound("config %d %r: first crash anywhere, second crash within the first 40 operations of the resumed run" % (cfg, P.CRASH_CONFIGS[cfg]))
-        nchunk = 8
+        ob.bound("config %d %r: first crash anywhere, second crash within the first 20 operations of the resumed run" % (cfg, P.CRASH_CONFIGS[cfg]))
+        nchunk = 16
         step = (nev + nchunk - 1) // nchunk
         for k in range(nchunk):
             lo, hi = k * step, min(nev - 1, (k + 1) * step - 1)
             if lo <= hi:
-                slices.append(make_slice("T%d_%d" % (cfg, k), cfg, (lo, hi), second=(0, 39), ignore=ignore, timeout_s=1500))
+                slices.append(make_slice("T%d_%d" % (cfg, k), cfg, (lo, hi), second=(0, 19), ignore=ignore, timeout_s=1500))
     _run(ob, slices)
 
 
